@@ -17,9 +17,25 @@ Checks per case
         c: terms (exact, after Fraction(float(.))), type, recorded `constraints`, `num_ancillas`; both also equal the
         model's `subs c` / direct numeric model (run-time form of T16.1/T16.2)
   (iii) DIRECT ORACLE: `subs` returns a new object and leaves the original unchanged (snapshot)
-(ii)+(iii) use the real objects only and share nothing with the Lean model.
+  (iv)  DIRECT ORACLE, HISTORIES before subs: the symbolic model (constrained model, or reduced Matrix form) first goes
+        through 1..2 maintenance steps — refresh(), copy(), copy()+refresh(), the constructor, clear() + term-by-term rebuild,
+        info round trip, set_mapping / set_reverse_mapping permutation, `*= 1`, `+= 0`, subs({}), an earlier subs at another value
+        (alone, or followed by `*= 2`), PUBO(H) / PUSO(H) + refresh(), refresh() followed by a purely
+        numeric write, numeric in-place and out-of-place arithmetic (`+= {..}`, `-= {..}`, `*= 2`, `/= 2`, `-H`, `H + {..}`,
+        `2 * H`), to_pubo() / to_puso() / to_pubo after refresh — and only then `subs`; the very same steps are applied to the
+        direct numeric build, and `form.subs(lam -> c)` must equal the form built with the number c (terms through the
+        models' own label mappings, type, recorded constraints, ancilla counter).  For the steps that keep the terms the
+        result is also compared with the Lean model's `subs c`
+  pre/mid: a quarter of the constraint sequences have one term-preserving maintenance step (same menu) before the first or
+        the second constraint call — in the symbolic and in every numeric build alike
+  call forms: every substitution is written in one of 18 ways sympy's `subs` accepts (and the unchanged code accepts):
+        {lam: c}, (lam, c), [(lam, c)], ((lam, c),), list(zip([lam], [c])), a set of pairs, each of the first three with
+        simultaneous=True, the string forms ('lam', c), {'lam': c}, [('lam', c)], two-symbol dict / list with an unrelated
+        symbol, the chain [(lam, mu), (mu, c)], and c given as float / sympy Integer / sympy Rational; the form rotates with
+        the case index and the value index so that every form meets every value
+(ii)+(iii)+(iv) use the real objects only and share nothing with the Lean model.
 """
-import itertools, time, warnings
+import itertools, random, time, warnings
 from fractions import Fraction
 from . import common, c01, c02, c06
 from .common import Labels, fs, exc_name, canon_terms, snapshot, ANC, Infra
@@ -30,7 +46,11 @@ RULE = ("sympy Symbol('lam') as weight: (cons) 1..3 add_constraint_R_zero calls 
         "built to cancel a penalty coefficient at one of the substituted values; (logic) the 16 logical methods with the "
         "C06 operand kinds; (pcso) 1..2 PCSO.add_constraint_R_zero calls on spin polynomials; (reduce) the C01 generator "
         "(PUBO/PUSO/PCBO/PCSO, 4 targets, deg, pairs) with penalty X or a callable v->X, v->|v|X, v->vX; every case is "
-        "substituted at c in {1,2,1/2,3,5/2} and compared with the direct numeric build; numbers are dyadic. "
+        "substituted at c in {1,2,1/2,3,5/2} and compared with the direct numeric build; numbers are dyadic; the substitution "
+        "is written in one of 18 call forms (rotating); two thirds of the cases additionally put the symbolic model through "
+        "1..2 maintenance steps (refresh, copy, constructor, clear+rebuild, info round trip, relabelling, neutral and numeric "
+        "in-place / out-of-place arithmetic, to_pubo / to_puso) before subs and compare with the numeric build put through "
+        "the same steps. "
         "non-trivial = the symbolic result has >= 2 coefficients that contain the symbol; distinct = distinct case JSON")
 ASSUMPTIONS = ["sympy's automatic normal form of polynomial expressions in one symbol is the ring normal form of Q[lam] "
                "(trusted; the model computes in Q[lam] as normalised coefficient lists)",
@@ -65,17 +85,49 @@ def num_of(s, style):
         return int(f)
     return f
 
-def subs_form(obj, c, i):
-    """the same substitution lam -> c in each of the call forms sympy's subs accepts (rotated over the values of c)"""
-    lam, val = LAM(), c_py(c)
-    form = i % 4
-    if form == 0:
-        return obj.subs({lam: val})
-    if form == 1:
-        return obj.subs(lam, val)
-    if form == 2:
-        return obj.subs([(lam, val)])
-    return obj.subs(((lam, val),))
+def _mu():
+    import sympy
+    if "mu" not in _sym:
+        _sym["mu"] = sympy.Symbol("mu")
+    return _sym["mu"]
+
+def _sy(kind, val):
+    import sympy
+    f = Fraction(val)
+    return sympy.Integer(int(f)) if (kind == "int" and f.denominator == 1) else sympy.Rational(f.numerator, f.denominator)
+
+# every way of writing  lam -> val  that sympy's subs accepts and the unchanged code accepts
+FORMS = [
+    ("dict", lambda o, lam, val: o.subs({lam: val})),
+    ("pos", lambda o, lam, val: o.subs(lam, val)),
+    ("list", lambda o, lam, val: o.subs([(lam, val)])),
+    ("tuple", lambda o, lam, val: o.subs(((lam, val),))),
+    ("ziplist", lambda o, lam, val: o.subs(list(zip([lam], [val])))),
+    ("dict-simultaneous", lambda o, lam, val: o.subs({lam: val}, simultaneous=True)),
+    ("list-simultaneous", lambda o, lam, val: o.subs([(lam, val)], simultaneous=True)),
+    ("pos-simultaneous", lambda o, lam, val: o.subs(lam, val, simultaneous=True)),
+    ("set", lambda o, lam, val: o.subs({(lam, val)})),
+    ("str", lambda o, lam, val: o.subs("lam", val)),
+    ("str-dict", lambda o, lam, val: o.subs({"lam": val})),
+    ("str-list", lambda o, lam, val: o.subs([("lam", val)])),
+    ("two-dict", lambda o, lam, val: o.subs({lam: val, _mu(): 5})),
+    ("two-list", lambda o, lam, val: o.subs([(_mu(), 5), (lam, val)])),
+    ("chain", lambda o, lam, val: o.subs([(lam, _mu()), (_mu(), val)])),
+    ("float", lambda o, lam, val: o.subs(lam, float(val))),
+    ("sympy-number", lambda o, lam, val: o.subs(lam, _sy("int", val))),
+    ("sympy-rational-dict", lambda o, lam, val: o.subs({lam: _sy("rat", val)})),
+]
+
+def subs_form(obj, c, i, ctx=None):
+    """the same substitution lam -> c in each of the call forms (rotating with i)"""
+    name, f = FORMS[i % len(FORMS)]
+    if ctx is not None:
+        ctx.count("subs-form:" + name)
+    return f(obj, LAM(), c_py(c))
+
+def form_index(case, ci):
+    """rotation: consecutive cases cover consecutive blocks of five forms, so every form meets every value of c"""
+    return case.get("idx", 0) * len(CS) + ci
 
 def c_py(c):
     f = Fraction(c)
@@ -133,6 +185,179 @@ def model_cons(lst):
 def n_symbolic(terms):
     return sum(1 for _, cs in terms if len(cs) >= 2)
 
+# ------------------------------------------------------------------ histories before subs (check iv)
+
+# steps that keep the terms (the Lean model's `subs c` of the final symbolic state still applies afterwards)
+MAINT_KEEP = ["refresh", "copy", "copy_refresh", "ctor", "info", "relabel", "imul1", "iadd0", "subs_empty", "refresh_twice",
+              "presubs"]
+# steps that change the terms by numbers only (oracle only)
+MAINT_NUM = ["refresh_touch", "clear_rebuild", "clear_rebuild_refresh", "iadd_num", "isub_num", "imul2", "idiv2", "neg",
+             "add_num", "rmul2", "refresh_iadd_fresh", "presubs_imul2", "as_plain_refresh"]
+# conversions of the symbolic model (the result is a Matrix form with integer labels)
+MAINT_CONV = ["to_pubo", "to_puso", "refresh_to_pubo", "copy_to_puso"]
+MAINT_MATRIX = ["refresh", "copy", "copy_refresh", "ctor", "imul1", "iadd0", "subs_empty", "refresh_twice", "refresh_touch",
+                "clear_rebuild", "iadd_num", "imul2", "idiv2", "neg", "rmul2", "info", "presubs", "presubs_imul2"]
+
+def gen_maint(rng, idx, matrix=False):
+    """1..2 steps; the first one rotates through the whole menu with the case index"""
+    menu = MAINT_MATRIX if matrix else MAINT_KEEP + MAINT_NUM + MAINT_CONV
+    ops = [menu[idx % len(menu)]]
+    if ops[0] not in MAINT_CONV and rng.random() < 0.35:
+        ops.insert(0, rng.choice([o for o in menu if o not in MAINT_CONV]))
+    return ops
+
+class Form:
+    """a model after its history: the object, and (for a converted Matrix form) the reverse mapping that spells its
+    integer labels"""
+    def __init__(self, obj, rev=None):
+        self.obj, self.rev = obj, rev
+
+def maintain(H, ops, L, matrix=False, c="7"):
+    """apply the steps to H (symbolic or numeric alike: nothing here looks at the coefficients); returns a Form"""
+    import qubovert as qv
+    rev = None
+    fresh = (63,) if matrix else (L.lab(40),)
+    k0 = (0,) if matrix else (L.lab(0),)
+    with warnings.catch_warnings():
+        warnings.simplefilter("ignore")
+        for op in ops:
+            if op == "refresh":
+                H.refresh()
+            elif op == "refresh_twice":
+                H.refresh(); H.refresh()
+            elif op == "copy":
+                H = H.copy()
+            elif op == "copy_refresh":
+                H = H.copy(); H.refresh()
+            elif op == "ctor":
+                H = type(H)(H)
+            elif op == "info":
+                H = qv.utils.create_from_info(qv.utils.get_info(H))
+            elif op == "relabel":
+                mp = H.mapping
+                labs, vals = list(mp), list(mp.values())
+                new = {labs[t]: vals[len(vals) - 1 - t] for t in range(len(labs))}
+                if len(labs) % 2:
+                    H.set_reverse_mapping({v: k for k, v in new.items()})
+                else:
+                    H.set_mapping(new)
+            elif op == "imul1":
+                H *= 1
+            elif op == "iadd0":
+                H += 0
+            elif op == "subs_empty":
+                H = H.subs({})
+            elif op in ("presubs", "presubs_imul2"):
+                # an earlier substitution whose result is dropped: at another value, or at the value asked for later
+                # with an in-place scaling in between
+                if op == "presubs":
+                    H.subs({LAM(): 7})
+                else:
+                    H.subs({LAM(): c_py(c)})
+                    H *= 2
+            elif op == "as_plain_refresh":                  # the unconstrained labelled class holding the same terms
+                H = (qv.PUSO if type(H).__name__ == "PCSO" else qv.PUBO)(H); H.refresh()
+            elif op == "refresh_touch":
+                H.refresh(); H[fresh] += -1                 # a numeric write that meets no symbolic coefficient
+            elif op == "refresh_iadd_fresh":
+                H.refresh(); H += {fresh: 3, (): 1}
+            elif op in ("clear_rebuild", "clear_rebuild_refresh"):
+                items = list(H.items())
+                H.clear()
+                for k, v in items:
+                    H[k] += v
+                if op.endswith("refresh"):
+                    H.refresh()
+            elif op == "iadd_num":
+                H += {k0: 1, (): 2, fresh: -1}
+            elif op == "isub_num":
+                H -= {k0: 2, fresh: 1}
+            elif op == "imul2":
+                H *= 2
+            elif op == "idiv2":
+                H /= 2
+            elif op == "neg":
+                H = -H
+            elif op == "add_num":
+                H = H + {k0: 1, fresh: 2}
+            elif op == "rmul2":
+                H = 2 * H
+            elif op in ("to_pubo", "refresh_to_pubo", "to_puso", "copy_to_puso"):
+                if op.startswith("refresh"):
+                    H.refresh()
+                if op.startswith("copy"):
+                    H = H.copy()
+                rev = dict(H.reverse_mapping)
+                H = H.to_pubo() if op.endswith("pubo") else H.to_puso()
+            else:
+                raise AssertionError("unknown maintenance step " + op)
+    return Form(H, rev)
+
+def form_view(F, L, matrix=False):
+    """what is compared between `form.subs(lam -> c)` and the form built with the number c"""
+    o = F.obj
+    if F.rev is not None:
+        terms = sorted([[sorted(L.ident(F.rev[i]) for i in k), fs(v)] for k, v in o.items()])
+    elif matrix:
+        terms = canon_matrix(o)
+    else:
+        terms = canon_terms(o, L)
+    v = dict(terms=terms, type=type(o).__name__)
+    if hasattr(o, "_constraints"):
+        v["cons"] = cons_canon(o, L)
+        v["anc"] = o.num_ancillas
+    return v
+
+def maint_check(ctx, case, fam, sym_obj, L, build_numeric, model_at, matrix=False):
+    """check (iv): history, then subs, against the numeric build put through the same history.
+    build_numeric(c) -> (object, labels) ; model_at(ci) -> the Lean model's subs terms at CS[ci] (or None)"""
+    ops = case["maint"]
+    ci = case.get("idx", 0) % len(CS)
+    c = CS[ci]
+    sig = "C16:subs-after-history:" + fam
+    vc = dict(case, c=c)
+    for o in ops:
+        ctx.count("maint:" + o)
+    try:
+        F = maintain(sym_obj, ops, L, matrix, c)
+    except Exception as e:
+        # the same steps on the numeric build must then fail the same way
+        try:
+            D, L2 = build_numeric(c)
+            maintain(D, ops, L2, matrix, c)
+        except Exception as e2:
+            if exc_name(e2) == exc_name(e):
+                ctx.count("maint-raises-both"); return
+        ctx.violation(sig, vc, "the steps %s raise %s(%s) on the symbolic model but not on the model built with lam=%s" % (
+            ops, exc_name(e), str(e)[:100], c)); return
+    before = snapshot(F.obj)
+    try:
+        S = Form(subs_form(F.obj, c, form_index(case, ci) + 7, ctx), F.rev)
+    except Exception as e:
+        ctx.violation(sig, vc, "after the steps %s, subs(lam -> %s) raises %s(%s)" % (ops, c, exc_name(e), str(e)[:100])); return
+    if snapshot(F.obj) != before:
+        ctx.violation("C16:subs-mutates", vc, "after the steps %s, subs(lam -> %s) changed the model" % (ops, c)); return
+    if S.obj is F.obj:
+        ctx.violation("C16:subs-same-object", vc, "after the steps %s, subs returned the model itself" % (ops,)); return
+    D, L2 = build_numeric(c)
+    FD = maintain(D, ops, L2, matrix, c)
+    try:
+        sv = form_view(S, L, matrix)
+    except Exception as e:
+        ctx.violation(sig, vc, "after the steps %s, subs(lam -> %s) left a non-numeric coefficient: %s" % (ops, c, str(e)[:200])); return
+    dv = form_view(FD, L2, matrix)
+    ctx.count("subs-after-history-evaluations")
+    if sv != dv:
+        what = [k for k in sv if sv[k] != dv.get(k)]
+        ctx.violation(sig, vc, "after the steps %s, subs(lam -> %s) differs from the model built with lam=%s and put through the "
+                      "same steps, in %s: subs=%s direct=%s" % (ops, c, c, what, {k: sv[k] for k in what},
+                                                                 {k: dv.get(k) for k in what}))
+        return
+    if all(o in MAINT_KEEP for o in ops):
+        want = model_at(ci)
+        if want is not None and sv["terms"] != want:
+            ctx.diff(fam + ":subs-after-history", vc, sv["terms"], want)
+
 # ------------------------------------------------------------------ constraint sequences (PCBO comparison, logic, PCSO)
 
 def call_cmp(H, step, L, num, lam):
@@ -169,7 +394,11 @@ def build_seq(case, lam_of):
         obj[L.key(k)] = num_of(v, num)
     H = cls(obj)
     status, warns = [], []
-    for st in case["seq"]:
+    for si, st in enumerate(case["seq"]):
+        # term-preserving maintenance before the first / the second constraint (the same in the symbolic and numeric builds)
+        mop = case.get("pre") if si == 0 else case.get("mid") if si == 1 else None
+        if mop:
+            H = maintain(H, mop, L).obj
         try:
             with warnings.catch_warnings(record=True) as w:
                 warnings.simplefilter("always")
@@ -219,7 +448,7 @@ def run_seq_case(ctx, case, m):
     # ---- (iii) + (ii): subs versus the direct numeric build
     for ci, (c, mc) in enumerate(zip(CS, m["at"])):
         before = snapshot(H)
-        S = subs_form(H, c, ci + case.get("idx", 0))
+        S = subs_form(H, c, form_index(case, ci), ctx)
         if snapshot(H) != before:
             ctx.violation("C16:subs-mutates", dict(case, c=c), "H.subs({lam: %s}) changed H" % c); return
         if S is H:
@@ -280,6 +509,12 @@ def run_seq_case(ctx, case, m):
             ctx.count("simplify-checked")
         except Exception as e:
             ctx.violation("C16:simplify", case, "simplify()/subs raised %s: %s" % (exc_name(e), str(e)[:100]))
+    # ---- (iv) history on the symbolic model, then subs (last: the history may edit H in place)
+    if case.get("maint"):
+        def build_numeric(c):
+            D, L2, _, _ = build_seq(case, lambda st: weight_at(st["w"], c, case["num"]))
+            return D, L2
+        maint_check(ctx, case, fam, H, L, build_numeric, lambda ci: m["at"][ci]["subs"])
 
 # ---- generators
 
@@ -454,7 +689,7 @@ def run_reduce_case(ctx, case, m, info):
         return
     for ci, (c, mc) in enumerate(zip(CS, m["at"])):
         before = snapshot(R)
-        S = subs_form(R, c, ci + case.get("idx", 0))
+        S = subs_form(R, c, form_index(case, ci), ctx)
         if snapshot(R) != before:
             ctx.violation("C16:subs-mutates", dict(case, c=c), "R.subs({lam: %s}) changed R" % c); return
         if S is R:
@@ -478,6 +713,10 @@ def run_reduce_case(ctx, case, m, info):
             ctx.diff(fam + ":subs", dict(case, c=c), sv["terms"], mc["subs"])
         if dv["terms"] != mc["direct"]:
             ctx.diff(fam + ":direct", dict(case, c=c), dv["terms"], mc["direct"])
+    if case.get("maint"):
+        def build_numeric(c):
+            return getattr(M, "to_" + case["target"])(**red_kwargs(case, L, weight_at(case["w"], c, case["num"]))), L
+        maint_check(ctx, case, fam, R, L, build_numeric, lambda ci: m["at"][ci]["subs"], matrix=True)
 
 def reduce_line(case, info):
     return {"op": "sym_reduce", "spin": case["kind"] in c01.SPIN, "target": case["target"], "terms": info["terms"],
@@ -534,6 +773,13 @@ def gen_cases(ctx):
     cases += [logic_case(rng, b, i) for i, b in enumerate(lg)]
     cases += [pcso_case(rng, i) for i in range(ctx.scale(150, 3000))]
     cases += [reduce_case(rng) for _ in range(ctx.scale(330, 6000))]
+    mrng = random.Random(ctx.seed * 7919 + 16)       # its own stream: the cases above are the ones of earlier rounds
+    for i, c in enumerate(cases):
+        c["idx"] = i
+        if i % 3 != 2:
+            c["maint"] = gen_maint(mrng, i // 3 * 2 + i % 3, matrix=(c["family"] == "reduce"))
+        if c["family"] != "reduce" and i % 4 == 1:
+            c["pre" if (i // 4) % 2 == 0 or len(c["seq"]) < 2 else "mid"] = [MAINT_KEEP[(i // 8) % len(MAINT_KEEP)]]
     return cases
 
 def check(ctx):
